@@ -427,7 +427,19 @@ class Interp:
             env[t.id] = v
         elif isinstance(t, (ast.Tuple, ast.List)):
             items = list(self.iterate(v))
-            if any(isinstance(x, ast.Starred) for x in t.elts):
+            stars = [i for i, x in enumerate(t.elts) if isinstance(x, ast.Starred)]
+            if len(stars) == 1:
+                k = stars[0]
+                after = len(t.elts) - k - 1
+                if len(items) < len(t.elts) - 1:
+                    raise Raised('ValueError', 'not enough values to unpack')
+                for x, it in zip(t.elts[:k], items[:k]):
+                    self.assign(x, it, env, fn, depth)
+                self.assign(t.elts[k].value, list(items[k:len(items) - after]), env, fn, depth)
+                for x, it in zip(t.elts[k + 1:], items[len(items) - after:] if after else []):
+                    self.assign(x, it, env, fn, depth)
+                return
+            if stars:
                 raise Undecided('starred unpacking')
             if len(items) != len(t.elts):
                 raise Raised('ValueError', 'unpacking')
